@@ -1133,7 +1133,11 @@ def run(ctx):
     # ---- layer U -------------------------------------------------------------------------------
     import time as _t
 
+    only = os.environ.get("C02_ONLY")  # calibration aid: run the layers whose name contains this
+
     def layer(name, mk, depth):
+        if only and only not in name:
+            return
         t0 = _t.time()
         seqx.pbfs(ctx, mk, [[]], depth)
         ctx.bound[name] = depth
@@ -1146,25 +1150,25 @@ def run(ctx):
     # full alphabet, one level deeper on the default header
     layer("U_2handles_full_alphabet_default_header_depth", lambda c: USys(c, nhandles=2, keys=rot(KEYNAMES), vals=vals, label="U2d", headers=["default"]), 7 if thorough else 6)
     # reduced alphabet, deeper, three handles in the thorough tier
-    layer("U_reduced_alphabet_depth", lambda c: USys(c, nhandles=3 if thorough else 2, keys=red_keys, vals=red_vals, label="U3", headers=["default", "h2only"]), 8 if thorough else 9)
+    layer("U_reduced_alphabet_depth", lambda c: USys(c, nhandles=3 if thorough else 2, keys=red_keys, vals=red_vals, label="U3", headers=["default", "h2only"]), 10 if thorough else 9)
     ctx.bound["U_reduced_alphabet_handles"] = 3 if thorough else 2
 
     # copy_items: a read route out of any open handle and a put route into a writable one
-    layer("U_copy_items_depth", lambda c: USys(c, nhandles=2, keys=["a", "bin", "empty", "k255"], vals={"x": b"x", "e": b""}, label="U4", headers=["default", "custom"], copy=True), 6 if thorough else 5)
+    layer("U_copy_items_depth", lambda c: USys(c, nhandles=2, keys=["a", "bin", "empty", "k255"], vals={"x": b"x", "e": b""}, label="U4", headers=["default", "custom"], copy=True), 7 if thorough else 5)
 
     # ---- layer C -------------------------------------------------------------------------------
     ckeys = rot(["a", "b", "empty", "k256", "u2", "u1"]) if not thorough else rot(list(CKEYS))
     cvals = {"e": b"", "x": b"x", "yy": b"yy"} if not thorough else vals
-    layer("C_2handles_depth", lambda c: CSys(c, nhandles=2, keys=ckeys, vals=cvals, label="C2"), 7 if thorough else 5)
+    layer("C_2handles_depth", lambda c: CSys(c, nhandles=2, keys=ckeys, vals=cvals, label="C2"), 6 if thorough else 5)
     # deeper with a reduced alphabet: stale handles need new+new+enter+set+exit+enter(other)+...
     # every accessor as the FIRST call after every put and every session entry
-    layer("C_first_accessor_depth", lambda c: CSys(c, nhandles=2, keys=["a", "b"], vals={"x": b"x"}, bufs=["dflt", "small", "large"], label="C6", first_acc="all"), 7 if thorough else 6)
-    layer("C_reduced_alphabet_depth", lambda c: CSys(c, nhandles=3 if thorough else 2, keys=["a", "k256"], vals={"x": b"x"}, bufs=["dflt", "large"], label="C3", first_acc=None), 8 if thorough else 9)
+    layer("C_first_accessor_depth", lambda c: CSys(c, nhandles=2, keys=["a", "b"], vals={"x": b"x"}, bufs=["dflt", "small", "large"], label="C6", first_acc="all"), 9 if thorough else 6)
+    layer("C_reduced_alphabet_depth", lambda c: CSys(c, nhandles=3 if thorough else 2, keys=["a", "k256"], vals={"x": b"x"}, bufs=["dflt", "large"], label="C3", first_acc=None), 10 if thorough else 9)
     # a second library on another path used by the same process, sessions on both open at the same time
-    layer("C_with_second_library_depth", lambda c: CSys(c, nhandles=1, keys=["a", "b"], vals={"x": b"x"}, bufs=["dflt", "large"], label="C5", first_acc=None, bystander=True), 10 if thorough else 8)
+    layer("C_with_second_library_depth", lambda c: CSys(c, nhandles=1, keys=["a", "b"], vals={"x": b"x"}, bufs=["dflt", "large"], label="C5", first_acc=None, bystander=True), 12 if thorough else 8)
     # header fields given at creation through the Collection constructor (each alone and together)
     for tag, kw in (("h2only", dict(comment="comment only")), ("b0only", dict(b0=b"\x07desc")), ("all", dict(h1=b"ML10Library", comment="c", b0=b"\x00d"))):
-        layer("C_header_" + tag + "_depth", lambda c, kw=kw, tag=tag: CSys(c, nhandles=2, keys=["a", "k256"], vals={"x": b"x", "e": b""}, bufs=["dflt", "large"], label="C4" + tag, hdr_kw=kw), 8 if thorough else 7)
+        layer("C_header_" + tag + "_depth", lambda c, kw=kw, tag=tag: CSys(c, nhandles=2, keys=["a", "k256"], vals={"x": b"x", "e": b""}, bufs=["dflt", "large"], label="C4" + tag, hdr_kw=kw), 10 if thorough else 7)
 
     # non-triviality / outcome accounting is collected by the systems through ctx.nontrivial/outcome
     for k in ctx.state_keys:
